@@ -45,6 +45,7 @@ package rules
 //@ ensures [rec] forall i int :: 0 <= i && i < len(req) && result[i] == APPROVED ==> wmAttOk(bytes(metadata[i].PubKey)) && wmAttS(bytes(metadata[i].PubKey)) == req[i].Source.Epoch && wmAttT(bytes(metadata[i].PubKey)) == req[i].Target.Epoch
 //@ ensures [mono] forall i int :: 0 <= i && i < len(metadata) && metadata[i] != nil && old(wmAttOk(bytes(metadata[i].PubKey))) ==> wmAttOk(bytes(metadata[i].PubKey)) && wmAttS(bytes(metadata[i].PubKey)) >= old(wmAttS(bytes(metadata[i].PubKey))) && wmAttT(bytes(metadata[i].PubKey)) >= old(wmAttT(bytes(metadata[i].PubKey)))
 //@ ensures [frame] forall k Bytes :: (forall i int :: 0 <= i && i < len(metadata) && metadata[i] != nil ==> k != attKey(bytes(metadata[i].PubKey))) ==> ((k in db) <==> (k in old(db))) && db[k] == old(db)[k]
+//@ ensures [compl] store_ok && len(metadata) == len(req) && (forall j int :: 0 <= j && j < len(req) ==> metadata[j] != nil && req[j] != nil && req[j].Source != nil && req[j].Target != nil && old(wmAttOk(bytes(metadata[j].PubKey)))) ==> (forall i int :: 0 <= i && i < len(req) && attOK(old(wmAttS(bytes(metadata[i].PubKey))), old(wmAttT(bytes(metadata[i].PubKey))), req[i].Source.Epoch, req[i].Target.Epoch, prefix4(req[i].Domain)) ==> result[i] == APPROVED)
 
 // listing needs no rule beyond the permission check: the rules approve every listing request (C18 completeness)
 //@ iface Service.OnListAccounts(self, ctx, metadata, req)
